@@ -67,15 +67,15 @@ var c12Default = time.Unix(0, 1600000000123456789).UTC()
 // ---- input generation -----------------------------------------------------------------------
 
 type c12Expect struct {
-	Kind     string   // valid | defect | boundary | mutated | soup
-	Lines    []string // physical/logical lines of a structured case, in order
-	Valid    []bool   // per line: must be accepted (true) or rejected (false)
-	Defects  []string // per line: defect kind ("" for valid)
-	Models   []*c11Point
-	Prec     string
-	Detail   string
-	Special  string // kind of the single special defect of the batch, or "none"
-	Trigger  string // "leading_space+quote" when a line starts with a blank run containing a space and contains a double quote
+	Kind    string   // valid | defect | boundary | mutated | soup
+	Lines   []string // physical/logical lines of a structured case, in order
+	Valid   []bool   // per line: must be accepted (true) or rejected (false)
+	Defects []string // per line: defect kind ("" for valid)
+	Models  []*c11Point
+	Prec    string
+	Detail  string
+	Special string // kind of the single special defect of the batch, or "none"
+	Trigger string // "leading_space+quote" when a line starts with a blank run containing a space and contains a double quote
 }
 
 type c12Input struct {
@@ -589,6 +589,14 @@ func c12FieldShape(pt models.Point) (shape string) {
 		for x := 0; x < len(key); x++ {
 			if (key[x] == ',' || key[x] == ' ') && (x == 0 || key[x-1] != '\\') {
 				return "separator_inside_key"
+			}
+		}
+		// two backslashes in front of a delimiter: scanFields skips them as one escape pair and
+		// takes the delimiter as a real one, the unescaping rules read "\\" + escaped delimiter;
+		// the '=' / ',' bookkeeping is fooled the same way as by bytes after a closing quote
+		for x := 0; x+2 < len(key); x++ {
+			if key[x] == '\\' && key[x+1] == '\\' && (key[x+2] == ',' || key[x+2] == '=' || key[x+2] == ' ') {
+				return "backslash_pair_before_delimiter_in_key"
 			}
 		}
 		if len(strings.Trim(key, " \t\x00")) == 0 {
